@@ -43,6 +43,45 @@ def _holds(p, flag: str) -> Optional[bool]:
     return res
 
 
+def _only_feeds_the_total(top: List[ast.stmt], i: int, last: int, key: str) -> bool:
+    """Statement top[i] reads the total between two of its writes, but only into locals (`before = self.CCap.value`) that are used up by
+    the time the total is written for the last time: the intermediate figure reaches no consumer."""
+    s = top[i]
+    assigns = [x for x in ast.walk(s) if isinstance(x, (ast.Assign, ast.AnnAssign, ast.AugAssign))]
+    reads = [x for x in ast.walk(s) if isinstance(x, ast.Attribute) and isinstance(x.ctx, ast.Load) and dotted_name(x) == key]
+    # every read sits in the value of an assignment to a plain local
+    derived: Set[str] = set()
+    for r in reads:
+        holder = next((a for a in assigns if a.value is not None and any(y is r for y in ast.walk(a.value))), None)
+        tg = (holder.targets[0] if isinstance(holder, ast.Assign) and len(holder.targets) == 1 else getattr(holder, 'target', None)) if holder is not None else None
+        if isinstance(tg, ast.Name):
+            derived.add(tg.id)
+        elif isinstance(tg, ast.Attribute) and dotted_name(tg) and dotted_name(tg) != key:
+            # a component figure defined from the running total (the tax credit = rate x total): fine when it goes straight back into the
+            # total, i.e. a statement up to the last write of the total reads it
+            d = dotted_name(tg)
+            back = any(isinstance(x, ast.Attribute) and isinstance(x.ctx, ast.Load) and dotted_name(x) == d
+                       for s2 in top[i:last + 1] for x in ast.walk(s2))
+            if not back:
+                return False
+        else:
+            return False
+    if any(isinstance(x, ast.Call) and (dotted_name(x.func) or '').split('.')[-1] not in ('float', 'int', 'abs', 'min', 'max', 'round') for x in ast.walk(s)):
+        return False
+    # locals computed from them, up to the last write
+    for s2 in top[i:last + 1]:
+        for a in ast.walk(s2):
+            if isinstance(a, (ast.Assign, ast.AnnAssign)) and a.value is not None:
+                tg = a.targets[0] if isinstance(a, ast.Assign) and len(a.targets) == 1 else getattr(a, 'target', None)
+                if isinstance(tg, ast.Name) and {n.id for n in ast.walk(a.value) if isinstance(n, ast.Name)} & derived:
+                    derived.add(tg.id)
+    # nothing after the last write reads them
+    for s2 in top[last + 1:]:
+        if {n.id for n in ast.walk(s2) if isinstance(n, ast.Name) and isinstance(n.ctx, ast.Load)} & derived:
+            return False
+    return True
+
+
 def _self_helper_inliner(ctx, fn: FuncInfo):
     """`self._helper(model)` as a statement: walk the helper's body in place when it is a method of the same class hierarchy whose
     parameters are passed under their own names (so no renaming is needed) and that returns nothing."""
@@ -237,7 +276,7 @@ def check_totals(ctx, fn: FuncInfo, tag: str) -> None:
                     early.append((rd[0].lineno, 'read before the total is assembled'))
                 continue
             rd = [x for x in ast.walk(s) if isinstance(x, ast.Attribute) and isinstance(x.ctx, ast.Load) and dotted_name(x) == key]
-            if rd:
+            if rd and not _only_feeds_the_total(top, i, last, key):
                 early.append((rd[0].lineno, 'read between two writes of the total'))
             for c in calls_in(s):
                 d = dotted_name(c.func) or ''
